@@ -607,9 +607,10 @@ def gen(rng, tier):
         cases += [gen_scenario(rng, "r%d" % i) for i in range(1100)]
         cases += [gen_pto(rng, "p%d" % i) for i in range(250)]
         return cases
-    cases = gen_exhaustive(6, "ex6s-", True) + gen_exhaustive(5, "ex5c-", False)
-    cases += [gen_scenario(rng, "r%d" % i) for i in range(40000)]
-    cases += [gen_pto(rng, "p%d" % i) for i in range(6000)]
+    # sized so that the thorough tier stays within ~20 minutes on 16 cores (the oracle walks full state dumps)
+    cases = gen_exhaustive(5, "ex5s-", True) + gen_exhaustive(5, "ex5c-", False)
+    cases += [gen_scenario(rng, "r%d" % i) for i in range(15000)]
+    cases += [gen_pto(rng, "p%d" % i) for i in range(3000)]
     return cases
 
 
